@@ -55,16 +55,25 @@ def showVerdict : Verdict → String
   | .bad k .incomplete => s!"bad {k} incomplete"
   | .internal => "internal"
 
+/-- a leaf type of the path stream: a plain type, or a union of plain types (accepted iff a member accepts) -/
+def mkTyMU (j : Json) : Option (List Ty) :=
+  if jstr j "base" = "union" then (jarr j "members").mapM mkTyM else (mkTyM j).map fun t => [t]
+def mkTySU (j : Json) : Option (List STy) :=
+  if jstr j "base" = "union" then (jarr j "members").mapM mkTyS else (mkTyS j).map fun t => [t]
+def unionSem {τ : Type} (sem : TySem τ) : TySem (List τ) :=
+  { accepts := fun ts v => ts.any fun t => sem.accepts t v,
+    isEmpty := fun ts => match ts with | [t] => sem.isEmpty t | _ => false }
+
 def handlePath (j : Json) : List (String × Json) :=
   let paths := (jarr j "paths").map fun p => match p with
     | .arr a => a.toList.map fun t => bytesOf (strOf t)
     | _ => []
-  let m := match (jarr j "top").mapM (loadSN mkTyM) with
+  let m := match (jarr j "top").mapM (loadSN mkTyMU) with
     | none => "compile-err"
-    | some top => ";".intercalate (paths.flatMap fun p => [false, true].map fun ai => showErr (vtree modelSem ai top p))
-  let s := match (jarr j "top").mapM (loadSN mkTyS) with
+    | some top => ";".intercalate (paths.flatMap fun p => [false, true].map fun ai => showErr (vtree (unionSem modelSem) ai top p))
+  let s := match (jarr j "top").mapM (loadSN mkTySU) with
     | none => "compile-err"
-    | some top => ";".intercalate (paths.flatMap fun p => [false, true].map fun ai => showVerdict (walkTop specSem ai top p))
+    | some top => ";".intercalate (paths.flatMap fun p => [false, true].map fun ai => showVerdict (walkTop (unionSem specSem) ai top p))
   [("m", m), ("s", s)]
 
 end YV.Drv.S
